@@ -165,7 +165,7 @@ PROPS = {
              "Proved: for every header value, encode_header returns a string matching the quoted-string grammar \"([^\"\\\\CRLF]|\\\\[\\\\\"])*\" on all four of its paths (latin-1, RFC 2047 encoded words, encoder failure, replace fallback), "
              "and that string is the quoted form of the value itself when it is latin-1, else of text that decodes to the value (or of the documented lossy '?' fallback); header_or_nil is NIL exactly for an absent field. "
              "Proved: the literal prefix of BODY[...] announces exactly the octet count of its data (FetchAtt.body, C16). The POP3 RETR reply equals status line + dot-stuffed rendering + terminator (C20). "
-             "Recorded fix: header values were put between double quotes unescaped (DESIGN F17), so a Subject with a quote, a backslash or a decoded CR/LF broke the FETCH response.",
+             "Recorded fix: header values were put between double quotes unescaped (DESIGN F17), so a Subject with a quote, a backslash or a decoded CR/LF broke the FETCH response. Bounded since: everything a session receives for FETCH (ENVELOPE BODYSTRUCTURE BODY FLAGS UID RFC822.SIZE INTERNALDATE BODY.PEEK[...]), SEARCH, STORE, LIST, LSUB, LIST-EXTENDED with STATUS, STATUS, SELECT and NO/BAD replies - on 20 messages whose headers and MIME parameters carry quotes, backslashes, parentheses, 8-bit letters, encoded words, folded lines, groups and comments, and on mailbox names with the same - is run through an independent RFC 3501 response tokenizer (CRLF-terminated responses, literal counts, quoted-string escapes, balanced parentheses). Recorded fix F18: BODYSTRUCTURE parameter values were not escaped.",
         note="quote_string (escape \\ and \", drop CR/LF) is a chain of four replace_all calls which neither z3 nor cvc5 decides against the grammar (cvc5 120 s timeout, z3 unknown): it is checked exhaustively over a 7-letter alphabet to length 5/7 - bounded, "
              "not proved - and enters the proofs as an assumed contract. encode_addrs, BODYSTRUCTURE, LIST/LSUB/STATUS formatting and parenthesis balance are not decided; DESIGN F18/F19 remain suspected.",
         assumptions=["z3/cvc5 sound", "PyVC level-1 string encoding; bytes modelled as the latin-1 text they decode to", "handlers push only untagged lines", "quote_string contract (bounded tier only)",
